@@ -55,12 +55,13 @@ class _Worker:
     is re-raised in the parent."""
     live = []
 
-    def __init__(self, fn):
+    def __init__(self, fn, exclusive=True):
         self.fn = fn
         self.pid = None
+        self.exclusive = exclusive
 
     def _start(self):
-        for w in list(_Worker.live):          # one worker at a time
+        for w in (list(_Worker.live) if self.exclusive else []):          # one persistent worker at a time
             w.close()
         pr, cw = os.pipe()
         cr, pw = os.pipe()
@@ -595,26 +596,37 @@ class _PPSpy:
         return getattr(_pprint, name)
 
 
-def real_write(kind, fname, data, hdr):
-    """run the real writer; returns (pformat text or None, header dict as written or None)"""
+def real_write(kind, fname, data, hdr, objs=None, wkw=None, noclose=False):
+    """run the real writer; returns (pformat text or None, header dict as written or None).
+    kind sfile_reuse: ONE SFile object (objs['sf'], created once with filename None) is pointed to file after file with
+    its public open(); wkw: further documented keywords (padnull=, ignorenull=, which must not matter for binary files)"""
     import esutil.sfile as sfile
     import esutil.io as eio
+    wkw = wkw or {}
     spy = _PPSpy()
     sfile.pprint = spy
     try:
         if kind == "sfile_fn":
             if hdr is None:
-                sfile.write(fname, data)
+                sfile.write(fname, data, **wkw)
             else:
-                sfile.write(fname, data, header=hdr)
+                sfile.write(fname, data, header=hdr, **wkw)
         elif kind == "sfile_cls":
-            with sfile.SFile(fname, "w") as sf:
+            with sfile.SFile(fname, "w", **wkw) as sf:
                 sf.write(data, header=hdr)
+        elif kind == "sfile_reuse":
+            if objs.get("sf") is None:
+                objs["sf"] = sfile.SFile()
+            sf = objs["sf"]
+            sf.open(fname, mode="w", **wkw)
+            sf.write(data, header=hdr)
+            if not noclose:
+                sf.close()
         elif kind == "io_fn":
             if hdr is None:
-                eio.write(fname, data)
+                eio.write(fname, data, **wkw)
             else:
-                eio.write(fname, data, header=hdr)
+                eio.write(fname, data, header=hdr, **wkw)
         else:
             raise AssertionError(kind)
     finally:
@@ -624,10 +636,11 @@ def real_write(kind, fname, data, hdr):
     return None, None
 
 
-def real_read(kind, fname, via="read"):
+def real_read(kind, fname, via="read", objs=None, rkw=None, noclose=False):
     """run the real reader with `eval` shadowed inside esutil.sfile; returns (data, hdr, eval texts)"""
     import esutil.sfile as sfile
     import esutil.io as eio
+    rkw = rkw or {}
     texts = []
 
     def spy_eval(s, *a):
@@ -636,17 +649,30 @@ def real_read(kind, fname, via="read"):
     sfile.eval = spy_eval
     try:
         if kind == "sfile_fn":
-            data, hdr = sfile.read(fname, header=True)
+            data, hdr = sfile.read(fname, header=True, **rkw)
         elif kind == "sfile_cls":
             with sfile.SFile(fname) as sf:
                 if via == "slice":
                     data = sf[:]
                     hdr = copy.deepcopy(sf.get_header())
                 else:
-                    data, hdr = sf.read(header=True)
+                    data, hdr = sf.read(header=True, **rkw)
                 assert sf.nrows == hdr["_SIZE"] and sf.dtype == data.dtype
+        elif kind == "sfile_reuse":
+            if objs.get("sf") is None:
+                objs["sf"] = sfile.SFile()
+            sf = objs["sf"]
+            sf.open(fname)
+            if via == "slice":
+                data = sf[:]
+                hdr = copy.deepcopy(sf.get_header())
+            else:
+                data, hdr = sf.read(header=True, **rkw)
+            assert sf.nrows == hdr["_SIZE"] and sf.dtype == data.dtype
+            if not noclose:
+                sf.close()
         elif kind == "io_fn":
-            data, hdr = eio.read(fname, header=True)
+            data, hdr = eio.read(fname, header=True, **rkw)
         else:
             raise AssertionError(kind)
     finally:
@@ -681,6 +707,73 @@ def monitor(text, head, data_dtype):
     return {"a": bool(a), "b": bool(b), "c": bool(c)}
 
 
+_UNSET = object()
+
+
+def sfile_roundtrip(kind, c, fname, objs=None, data=None, hdr=_UNSET, keep_file=False):
+    """one write + read-back through a self-describing entry point of the REAL code, observed for Coq (see SFileEntry.term)"""
+    import numpy as np
+    if hdr is _UNSET:
+        hdr = ast.literal_eval(c["header"]) if c.get("header") is not None else None
+    if data is None:
+        data = make_data(c)
+    orig = data.tobytes()
+    hdr_before = copy.deepcopy(hdr)
+    out = {"file": "", "text": None, "scan": ("err", "EOther", "not run"), "evaltext": ("err", "EOther", "not run"),
+           "read": None, "monitor": None, "ukeys": sorted(hdr) if hdr else [], "in_statement": user_hdr_ok(hdr),
+           "c_contiguous": bool(data.flags.c_contiguous)}
+    try:
+        text, head = real_write(kind, fname, data, hdr, objs=objs, wkw=c.get("wkw"), noclose=bool(c.get("noclose")))
+    except Exception as e:  # noqa
+        out["read"] = ("err", core.errclass(e), "write: %s: %s" % (type(e).__name__, str(e)[:200]))
+        return out
+    out["text"] = text
+    out["file"] = open(fname, "rb").read().hex() if os.path.exists(fname) else ""
+    out["input_unchanged"] = (data.tobytes() == orig) and hdr == hdr_before
+    if head is not None:
+        # the dict the real _make_header built, in dict order, values as ids (Exec.v_mkheader)
+        uorder = list(hdr or {})
+        pairs = []
+        for k, v in head.items():
+            if k == "_DTYPE":
+                pairs.append([k, -2 if v == data.dtype.descr else 0])
+            elif k == "_VERSION":
+                pairs.append([k, -1 if v == "1.0" else 0])
+            elif isinstance(k, str) and k in uorder and v == hdr[k]:
+                pairs.append([k, uorder.index(k) + 1])
+            else:
+                pairs.append([str(k), 0])
+        out["made_header"] = {"ukeys_order": uorder, "pairs": pairs}
+    if text is not None:
+        out["monitor"] = monitor(text, head, data.dtype)
+    out["scan"] = real_scan(fname)
+    try:
+        rdata, rhdr, texts = real_read(c.get("reader", kind), fname, c.get("via", "read"), objs=objs, rkw=c.get("rkw"),
+                                         noclose=bool(c.get("noclose")))
+    except Exception as e:  # noqa
+        out["read"] = ("err", core.errclass(e), "%s: %s" % (type(e).__name__, str(e)[:200]))
+        return out
+    finally:
+        if not keep_file:
+            try:
+                os.remove(fname)
+            except OSError:
+                pass
+    out["evaltext"] = ("ok", texts[1].encode().hex()) if len(texts) >= 2 else ("err", "EOther", "eval not reached")
+    try:
+        hdt = fields_of(np.dtype(rhdr["_DTYPE"]))
+    except Exception:  # noqa
+        hdt = None
+    keys = []
+    for k in (hdr or {}):
+        keys.append([k, bool(k in rhdr and rhdr[k] == hdr[k])])
+    size = rhdr.get("_SIZE")
+    out["read"] = ("ok", {"dtype": fields_of(rdata.dtype), "rows": rows_of(rdata),
+                          "size": int(size) if isinstance(size, int) and not isinstance(size, bool) else -1,
+                          "hdtype": hdt, "keys": keys, "is_ndarray": type(rdata) is np.ndarray, "ndim": rdata.ndim})
+    return out
+
+
 class SFileEntry(IsoEntry):
     """sfile.write/read, SFile(...).write/.read/[:], io.write/io.read for *.rec"""
     kind = "sfile_fn"
@@ -708,62 +801,7 @@ class SFileEntry(IsoEntry):
                 self.monitor_failures.append({"entry": self.name, "case": c, "pformat_text": out["text"], "monitor": out["monitor"]})
 
     def _impl(self, c):
-        import numpy as np
-        hdr = ast.literal_eval(c["header"]) if c.get("header") is not None else None
-        data = make_data(c)
-        orig = data.tobytes()
-        fname = _fname()
-        out = {"file": "", "text": None, "scan": ("err", "EOther", "not run"), "evaltext": ("err", "EOther", "not run"),
-               "read": None, "monitor": None, "ukeys": sorted(hdr) if hdr else [], "in_statement": user_hdr_ok(hdr),
-               "c_contiguous": bool(data.flags.c_contiguous)}
-        try:
-            text, head = real_write(self.kind, fname, data, hdr)
-        except Exception as e:  # noqa
-            out["read"] = ("err", core.errclass(e), "write: %s: %s" % (type(e).__name__, str(e)[:200]))
-            return out
-        out["text"] = text
-        out["file"] = open(fname, "rb").read().hex() if os.path.exists(fname) else ""
-        out["input_unchanged"] = (data.tobytes() == orig)
-        if head is not None:
-            # the dict the real _make_header built, in dict order, values as ids (Exec.v_mkheader)
-            uorder = list(hdr or {})
-            pairs = []
-            for k, v in head.items():
-                if k == "_DTYPE":
-                    pairs.append([k, -2 if v == data.dtype.descr else 0])
-                elif k == "_VERSION":
-                    pairs.append([k, -1 if v == "1.0" else 0])
-                elif isinstance(k, str) and k in uorder and v == hdr[k]:
-                    pairs.append([k, uorder.index(k) + 1])
-                else:
-                    pairs.append([str(k), 0])
-            out["made_header"] = {"ukeys_order": uorder, "pairs": pairs}
-        if text is not None:
-            out["monitor"] = monitor(text, head, data.dtype)
-        out["scan"] = real_scan(fname)
-        try:
-            rdata, rhdr, texts = real_read(self.kind, fname, c.get("via", "read"))
-        except Exception as e:  # noqa
-            out["read"] = ("err", core.errclass(e), "%s: %s" % (type(e).__name__, str(e)[:200]))
-            return out
-        finally:
-            try:
-                os.remove(fname)
-            except OSError:
-                pass
-        out["evaltext"] = ("ok", texts[1].encode().hex()) if len(texts) >= 2 else ("err", "EOther", "eval not reached")
-        try:
-            hdt = fields_of(np.dtype(rhdr["_DTYPE"]))
-        except Exception:  # noqa
-            hdt = None
-        keys = []
-        for k in (hdr or {}):
-            keys.append([k, bool(k in rhdr and rhdr[k] == hdr[k])])
-        size = rhdr.get("_SIZE")
-        out["read"] = ("ok", {"dtype": fields_of(rdata.dtype), "rows": rows_of(rdata),
-                              "size": int(size) if isinstance(size, int) and not isinstance(size, bool) else -1,
-                              "hdtype": hdt, "keys": keys, "is_ndarray": type(rdata) is np.ndarray, "ndim": rdata.ndim})
-        return out
+        return sfile_roundtrip(self.kind, c, _fname())
 
     def term(self, c, out):
         if out.get("crash"):
@@ -850,6 +888,73 @@ class IoFn(SFileEntry):
     grid = (1, 2)
 
 
+def recfile_roundtrip(kind, c, fname, objs=None, data=None, keep_file=False):
+    """one write + read-back through the low-level record reader of the REAL code (see RecfileEntry.term).
+    kind recfile_reuse: ONE Recfile object (objs['rf']) is pointed to file after file with its public open()"""
+    import numpy as np
+    import esutil.recfile as recfile
+    if data is None:
+        data = make_data(c)
+    orig = data.tobytes()
+    out = {"file": "", "read": None, "c_contiguous": bool(data.flags.c_contiguous)}
+    dt = np_dtype_of(c["dtype"])
+    n = len(c["rows"])
+    kw = {"absent": {}, "exact": {"nrows": n}, "none": {"nrows": None}, "negative": {"nrows": -1}}[c.get("nrows", "absent")]
+    kw = dict(kw, **(c.get("rkw") or {}))
+    wkw = c.get("wkw") or {}
+    rkind = c.get("reader", kind)
+    try:
+        if kind == "recfile_fn":
+            recfile.write(fname, data, **wkw)
+        elif kind == "recfile_cls":
+            with recfile.Recfile(fname, "w", **wkw) as r:
+                r.write(data)
+                assert r.nrows == n
+        elif kind == "recfile_reuse":
+            if objs.get("rf") is None:
+                objs["rf"] = recfile.Recfile(fname, "w", **wkw)
+            else:
+                objs["rf"].open(fname, mode="w", **wkw)
+            objs["rf"].write(data)
+            assert objs["rf"].nrows == n
+            if not c.get("noclose"):
+                objs["rf"].close()
+        else:
+            raise AssertionError(kind)
+        out["file"] = open(fname, "rb").read().hex()
+        out["input_unchanged"] = (data.tobytes() == orig)
+        if rkind == "recfile_fn":
+            rd = recfile.read(fname, dt, **kw)
+        elif rkind == "recfile_cls":
+            # the constructor also accepts a descr list instead of a dtype object
+            with recfile.Recfile(fname, mode="r", dtype=dt.descr if c.get("via") == "slice" else dt, **kw) as r:
+                rd = r[:] if c.get("via") == "slice" else r.read()
+                assert len(r) == rd.size
+        elif rkind == "recfile_reuse":
+            if objs.get("rf") is None:
+                objs["rf"] = recfile.Recfile(fname, mode="r", dtype=dt, **kw)
+            else:
+                objs["rf"].open(fname, mode="r", dtype=dt, **kw)
+            r = objs["rf"]
+            rd = r[:] if c.get("via") == "slice" else r.read()
+            assert len(r) == rd.size
+            if not c.get("noclose"):
+                r.close()
+        else:
+            raise AssertionError(rkind)
+        out["read"] = ("ok", {"dtype": fields_of(rd.dtype) if (type(rd) is np.ndarray and rd.ndim == 1) else None,
+                              "rows": rows_of(rd)})
+    except Exception as e:  # noqa
+        out["read"] = ("err", core.errclass(e), "%s: %s" % (type(e).__name__, str(e)[:200]))
+    finally:
+        if not keep_file:
+            try:
+                os.remove(fname)
+            except OSError:
+                pass
+    return out
+
+
 class RecfileEntry(IsoEntry):
     ext = ".bin"
     """recfile.write/recfile.read and Recfile(...).write/.read/[:] given the dtype"""
@@ -866,39 +971,7 @@ class RecfileEntry(IsoEntry):
         return cs
 
     def _impl(self, c):
-        import numpy as np
-        import esutil.recfile as recfile
-        data = make_data(c)
-        fname = _fname(".bin")
-        out = {"file": "", "read": None, "c_contiguous": bool(data.flags.c_contiguous)}
-        dt = np_dtype_of(c["dtype"])
-        n = len(c["rows"])
-        kw = {"absent": {}, "exact": {"nrows": n}, "none": {"nrows": None}, "negative": {"nrows": -1}}[c.get("nrows", "absent")]
-        try:
-            if self.kind == "recfile_fn":
-                recfile.write(fname, data)
-            else:
-                with recfile.Recfile(fname, "w") as r:
-                    r.write(data)
-                    assert r.nrows == n
-            out["file"] = open(fname, "rb").read().hex()
-            if self.kind == "recfile_fn":
-                rd = recfile.read(fname, dt, **kw)
-            else:
-                # the constructor also accepts a descr list instead of a dtype object
-                with recfile.Recfile(fname, mode="r", dtype=dt.descr if c.get("via") == "slice" else dt, **kw) as r:
-                    rd = r[:] if c.get("via") == "slice" else r.read()
-                    assert len(r) == rd.size
-            out["read"] = ("ok", {"dtype": fields_of(rd.dtype) if (type(rd) is np.ndarray and rd.ndim == 1) else None,
-                                  "rows": rows_of(rd)})
-        except Exception as e:  # noqa
-            out["read"] = ("err", core.errclass(e), "%s: %s" % (type(e).__name__, str(e)[:200]))
-        finally:
-            try:
-                os.remove(fname)
-            except OSError:
-                pass
-        return out
+        return recfile_roundtrip(self.kind, c, _fname(".bin"))
 
     def _nrows_opt(self, c):
         return {"absent": None, "exact": len(c["rows"]), "none": None, "negative": -1}[c.get("nrows", "absent")]
@@ -1336,6 +1409,220 @@ class ManyRows(IsoEntry):
         return True
 
 
+# ----------------------------------------------------------------------------------------------
+# history: several round trips in ONE process, arranged so that state carried from one call to the next
+# (an object reused for a second file, a cache keyed by path / file size / field names / record size /
+# argument identity) would show
+# ----------------------------------------------------------------------------------------------
+
+SD_KINDS = ["sfile_fn", "sfile_cls", "io_fn", "sfile_reuse"]
+RF_KINDS = ["recfile_fn", "recfile_cls", "recfile_reuse"]
+SAME_SIZE = {1: ["|i1", "|u1", "|b1", "|S1"], 2: ["<i2", ">i2", "<u2", ">u2", "|S2"], 4: ["<i4", ">i4", "<u4", ">u4", "<f4", ">f4", "|S4"],
+             8: ["<i8", ">i8", "<u8", ">u8", "<f8", ">f8", "<c8", ">c8", "|S8"], 16: ["<c16", ">c16"]}
+
+
+def hist_path(base, slot):
+    root, ext = os.path.splitext(base)
+    return "%s_%s%s" % (root, slot, ext or ".rec")       # io.write / io.read go by the extension .rec
+
+
+def hist_run(steps, base, alone_index=None):
+    """run the steps (all of them in this process, or only steps[alone_index] with fresh objects) on the real code"""
+    import numpy as np
+    objs = {"sf": None, "rf": None, "hdr": None, "arr": None}
+    outs = []
+    paths = set()
+    todo = list(enumerate(steps)) if alone_index is None else [(alone_index, steps[alone_index])]
+    for i, st in todo:
+        path = hist_path(base, st.get("path", "A"))
+        paths.add(path)
+        data = make_data(st)
+        hdr = ast.literal_eval(st["header"]) if st.get("header") is not None else None
+        if alone_index is None:
+            # (a) the same argument OBJECTS again, contents changed in place
+            if st.get("same_arr_obj") and objs["arr"] is not None and objs["arr"].dtype == data.dtype and objs["arr"].shape == data.shape \
+                    and data.flags.c_contiguous:
+                objs["arr"][...] = data
+                data = objs["arr"]
+            elif data.flags.c_contiguous:
+                objs["arr"] = data
+            if st.get("same_hdr_obj") and isinstance(objs["hdr"], dict) and isinstance(hdr, dict):
+                objs["hdr"].clear()
+                objs["hdr"].update(hdr)
+                hdr = objs["hdr"]
+            elif isinstance(hdr, dict):
+                objs["hdr"] = hdr
+        if st["writer"] in SD_KINDS:
+            outs.append(sfile_roundtrip(st["writer"], st, path, objs=objs, data=data, hdr=hdr, keep_file=True))
+        else:
+            outs.append(recfile_roundtrip(st["writer"], st, path, objs=objs, data=data, keep_file=True))
+    for o in (objs["sf"], objs["rf"]):
+        try:
+            if o is not None:
+                o.close()
+        except Exception:  # noqa
+            pass
+    for pth in paths:
+        try:
+            os.remove(pth)
+        except OSError:
+            pass
+    return outs
+
+
+class History(IsoEntry):
+    """sequences of 2-4 round trips in one process; every step is judged like a single round trip (model comparison +
+    verified checker) twice: as it came out in the sequence, and made alone in a fresh process with fresh objects"""
+    name = "history"
+
+    def __init__(self):
+        self.monitor_failures = []
+        self.texts = []
+        self.nmonitored = 0
+        self._sfp = SFileFn()
+        self._rfp = RecfileFn()
+
+    # ---- generators
+    def cases(self, ctx, round=0):
+        r = ctx.rng
+        cs = []
+
+        def table(fields, nrows, hdr, **kw):
+            return dict({"dtype": fields, "rows": gen_rows(r, fields, nrows), "header": repr(hdr) if hdr is not None else None,
+                         "via": r.choice(["read", "slice"])}, **kw)
+
+        def sd(step, w=None, rd=None):
+            step["writer"] = w or r.choice(SD_KINDS)
+            step["reader"] = rd or r.choice(SD_KINDS)
+            return step
+
+        def rf(step, w=None, rd=None):
+            step["writer"] = w or r.choice(RF_KINDS)
+            step["reader"] = rd or r.choice(RF_KINDS)
+            step["header"] = None
+            step["nrows"] = r.choice(["absent", "absent", "exact", "none", "negative"])
+            return step
+
+        def variant(fields):
+            """same field names and record size, other types / byte orders"""
+            out = []
+            for nm, ts, sh in fields:
+                k = int(ts[2:])
+                cand = [t for t in SAME_SIZE.get(k, [ts]) if t != ts] or [ts]
+                out.append([nm, r.choice(cand), sh])
+            return out
+
+        def hdr_like(h):
+            """another header whose pformat text has the same length"""
+            return {k: ("".join(r.choice("abcxyz") for _ in v) if isinstance(v, str) else v) for k, v in h.items()}
+        reps = ctx.n(2, 12) if round == 0 else 1
+        for _ in range(reps):
+            # (c) one SFile object for file after file (first use a write, or a read), other paths and the same path
+            f1, f2, f3 = gen_dtype(r, maxrow=40), gen_dtype(r, maxrow=40), gen_dtype(r, maxrow=40)
+            cs.append({"family": "history:reuse-SFile", "steps": [
+                sd(table(f1, 3, gen_header(r, "simple"), path="A"), "sfile_reuse", "sfile_reuse"),
+                sd(table(f2, 2, gen_header(r, "END"), path="B"), "sfile_reuse", "sfile_reuse"),
+                sd(table(f3, 4, gen_header(r, "none"), path="A", noclose=True), "sfile_reuse", "sfile_reuse")]})
+            cs.append({"family": "history:reuse-SFile-read-first", "steps": [
+                sd(table(f1, 3, gen_header(r, "simple"), path="A"), r.choice(["sfile_fn", "sfile_cls", "io_fn"]), "sfile_reuse"),
+                sd(table(f2, 2, gen_header(r, "nested"), path="B"), "sfile_reuse", r.choice(SD_KINDS)),
+                sd(table(f1, 2, gen_header(r, "simple"), path="B"), "sfile_reuse", "sfile_reuse")]})
+            cs.append({"family": "history:reuse-Recfile", "steps": [
+                rf(table(f1, 3, None, path="A"), "recfile_reuse", "recfile_reuse"),
+                rf(table(f2, 5, None, path="B", noclose=True), "recfile_reuse", "recfile_reuse"),
+                rf(table(variant(f1), 2, None, path="A"), "recfile_reuse", "recfile_reuse")]})
+            # (b) what a lazy key would use is shared: path, file size, field names, record size, row count, first/last rows
+            h = gen_header(r, "simple")
+            g = [["x", r.choice(SAME_SIZE[4]), []], ["y", r.choice(SAME_SIZE[8]), [2]], ["s", "|S3", []]]
+            t1 = table(g, 4, h, path="A")
+            t2 = table(variant(g), 4, hdr_like(h), path="A")
+            t3 = table(variant(g), 4, h, path="A")
+            t3["rows"] = [t1["rows"][0]] + t3["rows"][1:-1] + [t1["rows"][-1]]     # equal first and last rows
+            cs.append({"family": "history:same-path-size-names", "steps": [sd(t1), sd(t2), sd(t3)]})
+            t1, t2 = table(g, 3, None, path="A"), table(variant(g), 3, None, path="A")
+            t3 = table([["p", g[0][1], []], ["q", g[1][1], [2]], ["r", "|S3", []]], 3, None, path="A")      # other names, same '|V23'
+            cs.append({"family": "history:same-path-size-names-recfile", "steps": [rf(t1), rf(t2), rf(t3)]})
+            # (a) the same array / header OBJECTS passed again after an in-place change; equal contents in another object
+            t1 = table(f1, 3, gen_header(r, "simple"), path="A")
+            t2 = table(f1, 3, gen_header(r, "simple"), path=r.choice("AB"), same_arr_obj=True, same_hdr_obj=True)
+            t3 = dict(copy.deepcopy(t1), path="B")
+            cs.append({"family": "history:same-argument-objects", "steps": [sd(t1), sd(t2), sd(t3), sd(dict(copy.deepcopy(t2), same_arr_obj=True))]})
+            # mixed families through one path: self-describing file, raw record file, self-describing again
+            cs.append({"family": "history:mixed", "steps": [
+                sd(table(f2, 2, gen_header(r, "SIZE"), path="A")), rf(table(f2, 2, None, path="A")),
+                sd(table(f3, r.choice([1, 2, 6]), gen_header(r, r.choice(["reserved", "long", "empty"])), path="A")),
+                rf(table(f3, 1, None, path="B"))]})
+            # (e) documented optional arguments with non-default values that must not matter for a binary file
+            o1 = sd(table(f1, 2, gen_header(r, "simple"), path="A", wkw=r.choice([{"padnull": True}, {"ignorenull": True}])),
+                    r.choice(["sfile_fn", "sfile_cls", "io_fn", "sfile_reuse"]), "sfile_fn")
+            o1["rkw"] = r.choice([{"rows": None, "columns": None}, {"split": False, "reduce": False}, {"fields": None}])
+            o1["via"] = "read"
+            o2 = rf(table(f1, 2, None, path="B", wkw=r.choice([{"padnull": True}, {"ignorenull": True}, {"bracket_arrays": True}])),
+                    r.choice(["recfile_cls", "recfile_reuse"]))
+            o2["rkw"] = r.choice([{"offset": 0}, {"offset": None}, {"offset": ""}, {"padnull": True}, {"ignorenull": True}, {"offset": -3}])
+            cs.append({"family": "history:options", "steps": [o1, o2]})
+        for c in cs:
+            for st in c["steps"]:
+                st.setdefault("family", c["family"])
+        return cs
+
+    # ---- driving the real code
+    def _impl(self, c):
+        return {"seq": hist_run(c["steps"], _fname())}
+
+    def _alone(self, c, i):
+        return hist_run(c["steps"], _fname(), alone_index=i)[0]
+
+    def impl(self, c):
+        out = IsoEntry.impl(self, c)
+        if out.get("crash"):
+            return out
+        alone = []
+        for i in range(len(c["steps"])):
+            w = _Worker(self._alone, exclusive=False)        # a FRESH process (the parent never imports esutil) per step
+            path = _fname(self.ext)
+            try:
+                st, val = w.call(path, c, i)
+            finally:
+                w.close()
+                for sfx in ("A", "B"):
+                    try:
+                        os.remove(hist_path(path, sfx))
+                    except OSError:
+                        pass
+            alone.append(val if st == "ok" else {"crash": val, "file": "", "read": ("err", "EOther", "the real code died: " + val)})
+        out["alone"] = alone
+        out["alone_identical"] = [a == b for a, b in zip(alone, out["seq"])]
+        return out
+
+    def post(self, c, out):
+        for o in out.get("seq", []):
+            SFileEntry.post(self, c, o)
+
+    def _step_term(self, st, o):
+        pr = self._sfp if st["writer"] in SD_KINDS else self._rfp
+        return "(%s)" % pr.term(st, o)
+
+    def term(self, c, out):
+        if out.get("crash"):
+            return self.crash_verdict
+        ts = []
+        for st, o, a, same in zip(c["steps"], out["seq"], out["alone"], out["alone_identical"]):
+            ts.append(self._step_term(st, o))
+            if not same:          # identical observations print the identical term: printed once
+                ts.append(self._step_term(st, a))
+        t = ts[0]
+        for u in ts[1:]:
+            t = "(Z.lor %s %s)" % (t, u)
+        return t
+
+    def nontrivial(self, c, out):
+        return True
+
+    def family(self, c):
+        return c.get("family", "history")
+
+
 class Malformed(IsoEntry):
     crash_verdict = "(verdict false true)"       # nothing is required of malformed files: a crash there is a disagreement
     """malformed stream (correspondence only; the property requires nothing here): truncated or
@@ -1572,7 +1859,7 @@ def coqchk_step(ctx):
         ctx.violation("coqchk rejects C01/Properties.vo or reports axioms", {"kind": "coqchk", "log_tail": r.stdout[-2000:]}, found_input=False)
 
 
-ENTRIES = [SFileFn(), SFileCls(), IoFn(), RecfileFn(), RecfileCls(), LayoutEntry(), ManyRows(), Region(), Malformed()]
+ENTRIES = [SFileFn(), SFileCls(), IoFn(), RecfileFn(), RecfileCls(), LayoutEntry(), ManyRows(), History(), Region(), Malformed()]
 
 TRUSTED = [
     "Coq 8.16.1 kernel (coqc, vm_compute; no native_compute); every C01 theorem is closed under the global context (no axioms); "
@@ -1599,6 +1886,10 @@ TRUSTED = [
     "encoder's losslessness is checked in Python on every use) and are compared INSIDE Coq as decoded byte lists, with readers proved equal "
     "to the model's (C01_fast_readers_are_model); when a read-back is too irregular to be printed as <= 300 runs, a 4-row literal window "
     "around the first differing row (located in Python) is judged in Coq and the verdict can never be 0",
+    "history entry: 2-4 round trips in ONE process (one SFile / Recfile object re-opened on file after file, the same path rewritten with "
+    "equal size / field names / record size, the same array and header objects changed in place, non-default optional arguments); every step "
+    "is judged like a single round trip (model + checker in Coq) as it came out in the sequence AND as made alone in a fresh process; the "
+    "model itself has no state between calls (each file is a function of the header, dtype and rows written to it)",
     "every call into the real esutil runs in a forked worker process (one per entry point): a segfault/abort/hang of the C extension is "
     "recorded as the outcome of that case (failing input) instead of killing the check",
     "python harness (harness/props/C01.py): generators, drivers, observation of pformat/eval by shadowing the names `pprint`/`eval` in "
@@ -1609,6 +1900,7 @@ TRUSTED = [
 def run(ctx, replay=None):
     ctx.rule = ("corpus (witnesses of the two repaired defects) + adversarial families of the quantifier (END/SIZE/TREND, quotes, newlines, "
                 "wrapping, printf directives, reserved and near-reserved keys, many rows (2^k, 2^k+-1 around C/stdio block sizes, up to 131073), "
+                "call histories (object reuse, same path/size/names/record size, same argument objects, optional arguments), "
                 "every base type x sub-array rank x byte order, every memory layout of the array: "
                 "strided/reversed/offset/transposed/n-d/0-d/recarray) + seeded random tables/headers per entry point; each case is written and "
                 "read back by the real esutil and evaluated in Coq (model file bytes = real file bytes, scanner, eval text, _make_header dict, "
